@@ -106,9 +106,9 @@ Qed.
 Lemma bpow40_ge1 : 1 <= bpow radix2 40.
 Proof. change 1 with (bpow radix2 0). apply bpow_le; lia. Qed.
 
-(* One rounding step in "sample units": if y*fs is within E of N, then RN y * fs is within
+(* One rounding rn_step in "sample units": if y*fs is within E of N, then RN y * fs is within
    E + u (|N| + E) + tiny of N. *)
-Lemma step (fs y N E : R) :
+Lemma rn_step (fs y N E : R) :
   1 <= fs -> fs <= bpow radix2 40 ->
   Rabs (y * fs - N) <= E ->
   Rabs (RN y * fs - N) <= E + u * (Rabs N + E) + tiny.
@@ -133,36 +133,36 @@ Proof.
 Qed.
 
 (* the same with fs = 1: the last rounding, of the product *)
-Lemma step1 (y N E : R) :
+Lemma rn_step1 (y N E : R) :
   Rabs (y - N) <= E ->
   Rabs (RN y - N) <= E + u * (Rabs N + E) + tiny.
 Proof.
   intros H.
-  generalize (step 1 y N E (Rle_refl 1) bpow40_ge1).
+  generalize (rn_step 1 y N E (Rle_refl 1) bpow40_ge1).
   rewrite !Rmult_1_r. auto.
 Qed.
 
 (* coarse uniform version for integer targets below 2^45: each rounding costs at most 1/128 sample *)
-Lemma step_c (fs y : R) (n : Z) (E : R) :
+Lemma rn_step_c (fs y : R) (n : Z) (E : R) :
   1 <= fs -> fs <= bpow radix2 40 ->
   (Z.abs n <= 2^45)%Z -> E <= 1 ->
   Rabs (y * fs - IZR n) <= E ->
   Rabs (RN y * fs - IZR n) <= E + /128.
 Proof.
   intros Hfs1 Hfs2 Hn HE H.
-  eapply Rle_trans; [apply (step fs y (IZR n) E Hfs1 Hfs2 H)|].
+  eapply Rle_trans; [apply (rn_step fs y (IZR n) E Hfs1 Hfs2 H)|].
   assert (HN : Rabs (IZR n) <= IZR (2^45)) by (rewrite <- abs_IZR; apply IZR_le; exact Hn).
   assert (HE0 : 0 <= E) by (eapply Rle_trans; [apply Rabs_pos | exact H]).
   rewrite u_val, tiny_val. simpl in *. lra.
 Qed.
 
-Lemma step1_c (y : R) (n : Z) (E : R) :
+Lemma rn_step1_c (y : R) (n : Z) (E : R) :
   (Z.abs n <= 2^45)%Z -> E <= 1 ->
   Rabs (y - IZR n) <= E ->
   Rabs (RN y - IZR n) <= E + /128.
 Proof.
   intros Hn HE H.
-  generalize (step_c 1 y n E (Rle_refl 1) bpow40_ge1 Hn HE).
+  generalize (rn_step_c 1 y n E (Rle_refl 1) bpow40_ge1 Hn HE).
   rewrite !Rmult_1_r. auto.
 Qed.
 
@@ -173,7 +173,7 @@ Lemma grid_c (fs : R) (n : Z) :
 Proof.
   intros Hfs1 Hfs2 Hn.
   replace (/128) with (0 + /128) by ring.
-  apply step_c; auto; try lra.
+  apply rn_step_c; auto; try lra.
   replace (IZR n / fs * fs - IZR n) with 0 by (field; lra).
   rewrite Rabs_R0; lra.
 Qed.
@@ -210,13 +210,13 @@ Proof.
   assert (H4 : Rabs (pre * fs - IZR m) <= /128) by (apply grid_c; auto; lia).
   set (S := RN (IZR s / fs)) in *.
   assert (H3 : Rabs (t0 * fs - IZR (j + s)) <= 2/128 + /128).
-  { apply step_c; auto; try lia; try lra.
+  { apply rn_step_c; auto; try lia; try lra.
     rewrite plus_IZR. clear - H1 H2. split_Rabs; lra. }
   assert (H5 : Rabs (RN (t0 - pre) * fs - IZR (j + s - m)) <= 4/128 + /128).
-  { apply step_c; auto; try lia; try lra.
+  { apply rn_step_c; auto; try lia; try lra.
     rewrite minus_IZR. clear - H3 H4. split_Rabs; lra. }
   assert (H6 : Rabs (RN (RN (t0 - pre) * fs) - IZR (j + s - m)) <= 5/128 + /128).
-  { apply step1_c; auto; try lia; try lra. }
+  { apply rn_step1_c; auto; try lia; try lra. }
   apply Znearest_imp.
   lra.
 Qed.
@@ -276,25 +276,25 @@ Proof.
   assert (Hb : bpow radix2 (-50) = / IZR (2^50)) by (simpl; reflexivity).
   set (P := pre * fs) in *.
   assert (H1 : Rabs (T0 * fs - IZR j) <= 0 + u * (Rabs (IZR j) + 0) + tiny).
-  { apply step; auto. replace (IZR j / fs * fs - IZR j) with 0 by (field; lra). rewrite Rabs_R0; lra. }
+  { apply rn_step; auto. replace (IZR j / fs * fs - IZR j) with 0 by (field; lra). rewrite Rabs_R0; lra. }
   assert (H2 : Rabs (RN (IZR s / fs) * fs - IZR s) <= 0 + u * (Rabs (IZR s) + 0) + tiny).
-  { apply step; auto. replace (IZR s / fs * fs - IZR s) with 0 by (field; lra). rewrite Rabs_R0; lra. }
+  { apply rn_step; auto. replace (IZR s / fs * fs - IZR s) with 0 by (field; lra). rewrite Rabs_R0; lra. }
   set (S := RN (IZR s / fs)) in *.
   rewrite (Rabs_pos_eq (IZR j)) in H1 by lra.
   rewrite (Rabs_pos_eq (IZR s)) in H2 by lra.
   set (E12 := u * (IZR j + IZR s) + 2 * tiny).
   assert (H3 : Rabs (t0 * fs - (IZR j + IZR s)) <= E12 + u * (Rabs (IZR j + IZR s) + E12) + tiny).
-  { apply step; auto. unfold E12. clear - H1 H2. split_Rabs; lra. }
+  { apply rn_step; auto. unfold E12. clear - H1 H2. split_Rabs; lra. }
   rewrite (Rabs_pos_eq (IZR j + IZR s)) in H3 by lra.
   set (E3 := E12 + u * (IZR j + IZR s + E12) + tiny) in *.
   assert (H4 : Rabs (RN (t0 - pre) * fs - (IZR j + IZR s - P)) <= E3 + u * (Rabs (IZR j + IZR s - P) + E3) + tiny).
-  { apply step; auto. replace ((t0 - pre) * fs - (IZR j + IZR s - P)) with (t0 * fs - (IZR j + IZR s)) by (unfold P; ring).
+  { apply rn_step; auto. replace ((t0 - pre) * fs - (IZR j + IZR s - P)) with (t0 * fs - (IZR j + IZR s)) by (unfold P; ring).
     exact H3. }
   set (D := Rabs (IZR j + IZR s - P)) in *.
   assert (HD : D <= IZR j + IZR s + P) by (unfold D; clear - HJ HS HP0; split_Rabs; lra).
   set (E4 := E3 + u * (D + E3) + tiny) in *.
   assert (H5 : Rabs (RN (RN (t0 - pre) * fs) - (IZR j + IZR s - P)) <= E4 + u * (D + E4) + tiny).
-  { apply step1; auto. }
+  { apply rn_step1; auto. }
   unfold X, d. rewrite plus_IZR.
   eapply Rle_trans; [exact H5|].
   unfold E4, E3, E12. rewrite Hb, u_val, tiny_val.
@@ -315,13 +315,13 @@ Proof.
   assert (H2 : Rabs (RN (IZR s / fs) * fs - IZR s) <= /128) by (apply grid_c; auto; lia).
   set (S := RN (IZR s / fs)) in *.
   assert (H3 : Rabs (t * fs - IZR (j + s)) <= 2/128 + /128).
-  { apply step_c; auto; try lia; try lra.
+  { apply rn_step_c; auto; try lia; try lra.
     rewrite plus_IZR. clear - H1 H2. split_Rabs; lra. }
   assert (H5 : Rabs (RN (t - T0) * fs - IZR s) <= 4/128 + /128).
-  { apply step_c; auto; try lia; try lra.
+  { apply rn_step_c; auto; try lia; try lra.
     rewrite plus_IZR in H3. clear - H3 H1. split_Rabs; lra. }
   assert (H6 : Rabs (RN (RN (t - T0) * fs) - IZR s) <= 5/128 + /128).
-  { apply step1_c; auto; try lia; try lra. }
+  { apply rn_step1_c; auto; try lia; try lra. }
   apply Znearest_imp.
   lra.
 Qed.
@@ -340,16 +340,16 @@ Proof.
   assert (H4 : Rabs (dur * fs - IZR len) <= /128) by (apply grid_c; auto; lia).
   set (S := RN (IZR s / fs)) in *.
   assert (H3 : Rabs (t0 * fs - IZR (j + s)) <= 2/128 + /128).
-  { apply step_c; auto; try lia; try lra.
+  { apply rn_step_c; auto; try lia; try lra.
     rewrite plus_IZR. clear - H1 H2. split_Rabs; lra. }
   assert (H5 : Rabs (RN (t0 + dur) * fs - IZR (j + s + len)) <= 4/128 + /128).
-  { apply step_c; auto; try lia; try lra.
+  { apply rn_step_c; auto; try lia; try lra.
     rewrite plus_IZR. clear - H3 H4. split_Rabs; lra. }
   assert (H6 : Rabs (RN (RN (t0 + dur) - T0) * fs - IZR (s + len)) <= 6/128 + /128).
-  { apply step_c; auto; try lia; try lra.
+  { apply rn_step_c; auto; try lia; try lra.
     rewrite !plus_IZR in H5. rewrite plus_IZR. clear - H5 H1. split_Rabs; lra. }
   assert (H7 : Rabs (RN (RN (RN (t0 + dur) - T0) * fs) - IZR (s + len)) <= 7/128 + /128).
-  { apply step1_c; auto; try lia; try lra. }
+  { apply rn_step1_c; auto; try lia; try lra. }
   apply Znearest_imp.
   lra.
 Qed.
